@@ -103,4 +103,33 @@ def specWritten (tin : GfaFile) (comp : List V) (tag : V → Option (Int × Int)
    tout.links.length == linksIn.length &&
    linksIn.all (fun l => (tout.links.filter (· == l)).length == (linksIn.filter (· == l)).length))
 
+/-- C07, CSV clause, for one written component: a header line, then every node of the component exactly once with its role
+    (scaffold node / bubble node), the SN / SO of its S line (`NA` when absent) and the BO / NO values of the GFA file -/
+def specCsv (tin : GfaFile) (comp : List V) (tag : V → Option (Int × Int)) (isScaffold : V → Bool) (rows : List (List String)) : Bool :=
+  match rows with
+  | [] => false
+  | hd :: body =>
+    hd == ["Name", "Color", "SN", "SO", "BO", "NO"] &&
+    body.length == comp.length &&
+    comp.all (fun v => match body.filter (fun r => r.head? == some v) with
+      | [[_, col, sn, so, bo, no]] =>
+        col == (if isScaffold v then "orange" else "blue") &&
+        (match tag v with
+         | some (b, n) => bo == toString b && no == toString n
+         | none => false) &&
+        sn == (((tin.segs.find? (·.id == v)).bind (fun s => Gaftools.View.tagVal s.tags "SN")).getD "NA") &&
+        so == (((tin.segs.find? (·.id == v)).bind (fun s => Gaftools.View.tagVal s.tags "SO")).getD "NA")
+      | _ => false)
+
+/-- C07, without `--by-chrom`: the `-complete` GFA holds the S lines of the ordered components, chromosome after chromosome in
+    request order, in strictly increasing (BO, NO) order over the whole file, followed by their L lines; nothing else -/
+def specComplete (parts : List GfaFile) (tag : V → Option (Int × Int)) (tout : GfaFile) : Bool :=
+  tout.segs == parts.flatMap (·.segs) &&
+  tout.links.length == (parts.flatMap (·.links)).length &&
+  (parts.flatMap (·.links)).all (fun l => (tout.links.filter (· == l)).length == ((parts.flatMap (·.links)).filter (· == l)).length) &&
+  (let keys := tout.segs.map (fun o => tag o.id)
+   (List.zip keys keys.tail).all (fun p => match p.1, p.2 with
+     | some a, some b => decide (a.1 < b.1) || (a.1 == b.1 && decide (a.2 < b.2))
+     | _, _ => false))
+
 end Gaftools.Spec.Order
